@@ -539,7 +539,7 @@ __CPROVER_loop_invariant(g_copies == ((Chi->parts.gidx >= 0 && iter.pos > Chi->p
 __CPROVER_decreases((long)Chi->parts.n - iter.pos)
 //@end
 
-//@harness h_Susc_copy enforce=Susceptibility_init1 props=C14 min_obl=838 timeout=120 reach=2
+//@harness h_Susc_copy enforce=Susceptibility_init1 props=C14,C17 min_obl=838 timeout=120 reach=2
 void h_Susc_copy(void)
 {
   struct Susceptibility *chi, *src;
